@@ -122,7 +122,7 @@ def derive(ops, impl):
 class Cw(Engine):
     name = 'cw'
     keep_prefix = 1
-    timeout = 900
+    timeout = 1500
 
     def __init__(self, nbase=260, monitor=True, mem=True, c11=False):
         self.nbase, self.monitor, self.mem, self.c11 = nbase, monitor, mem, c11
@@ -135,7 +135,7 @@ class Cw(Engine):
             yield c
 
     def gen0(self, rng, tier):
-        n = self.nbase if tier == 'quick' else self.nbase * 12
+        n = self.nbase if tier == 'quick' else self.nbase * 5
         # 1. raw format: the blocking layer alone, full (bpb, bil) grid
         for i in range(n):
             bpb, bil = rng.choice(BPBS + [3, 513, 65537]), rng.choice(BILS + [3, 100, 20000])
@@ -171,7 +171,7 @@ class Cw(Engine):
         for fmt, bpb in (('raw', 7), ('ustar', 512), ('ustar', 0), ('raw', 0)):
             scen = ['new', f'fmt {fmt}', f'bpb {bpb}', 'bil -1', None, 'open', plain_header(size=1300), 'fill 700 3', 'fill 600 9',
                     'finish', 'close', 'free']
-            kmax = 12 if tier == 'quick' else 400
+            kmax = 12 if tier == 'quick' else 120
             for k in range(kmax):
                 for bad in ('e', 'z'):
                     ops = list(scen); ops[4] = 'script ' + ' '.join(['A'] * k + [bad])
@@ -186,7 +186,7 @@ class Cw(Engine):
         if self.mem:
             for fmt, bpb, dl in (('ustar', 512, 700), ('ustar', 10240, 5), ('raw', 7, 100), ('raw', 0, 33), ('ustar', 0, 513)):
                 need = (512 + (dl + 511) // 512 * 512 + 1024) if fmt == 'ustar' else dl
-                sizes = range(need + 2) if tier != 'quick' else sorted(set([0, 1, 2, 6, 7, 8, 511, 512, 513, 1023, 1024, 1025, need - 1, need, need + 1] + [rng.randrange(need + 1) for _ in range(10)]))
+                sizes = (range(need + 2) if need <= 1600 else sorted(set(list(range(0, need + 2, 5)) + [511, 512, 513, 1023, 1024, 1025, 1535, 1536, 1537, need - 1, need, need + 1]))) if tier != 'quick' else sorted(set([0, 1, 2, 6, 7, 8, 511, 512, 513, 1023, 1024, 1025, need - 1, need, need + 1] + [rng.randrange(need + 1) for _ in range(10)]))
                 for sz in sizes:
                     if sz < 0:
                         continue
@@ -198,8 +198,8 @@ class Cw(Engine):
         # 6. b64encode / uuencode in front of the client filter (64 KiB blocks): callback fails once
         for flt in ('b64', 'uu'):
             for fmt in ('raw', 'ustar'):
-                for k in ([0, 1, 2, 5] if tier == 'quick' else range(0, 30)):
-                    for bpb in ((10240,) if tier == 'quick' else (10240, 0, 70000)):
+                for k in ([0, 1, 2, 5] if tier == 'quick' else range(0, 12)):
+                    for bpb in ((10240,) if tier == 'quick' else (10240, 0)):
                         sc = ['A'] * k + [rng.choice(['e', 'z'])]
                         ops = ['new', f'fmt {fmt}', f'filter {flt}', f'bpb {bpb}', 'script ' + ' '.join(sc), 'open', plain_header(size=200000),
                                'fill 120000 7', 'fill 80000 9', 'finish', 'close', 'free']
@@ -212,11 +212,11 @@ class Cw(Engine):
                     yield Case(f'{flt}-{fmt}-{total}', ops, {'fmt': fmt, 'bpb': 10240, 'bil': -1, 'kind': 'all', 'filter': flt})
         # 7. formats / filters the model does not cover: fault sweep, predicate only (monitor)
         if self.monitor:
-            kmax = 6 if tier == 'quick' else 40
+            kmax = 6 if tier == 'quick' else 20
             for fmt in FMTS_MONITOR:
                 for k in range(kmax):
                     sc = ['A'] * k + ['e']
-                    ops = ['new', f'fmt {fmt}', 'bpb 512', 'script ' + ' '.join(sc), 'open', plain_header('dir/file.o', 3000), 'fill 3000 1', 'finish',
+                    ops = ['new', f'fmt {fmt}', 'bpb 512' if k % 2 else 'bpb 0', 'script ' + ' '.join(sc), 'open', plain_header('dir/file.o', 3000), 'fill 3000 1', 'finish',
                            plain_header('dir/g.o', 70000), 'fill 70000 2', 'close', 'free']
                     yield Case(f'mon-{fmt}-{k}', ops, {'fmt': fmt, 'bpb': 512, 'bil': -1, 'kind': 'monitor', 'filter': '-'})
             for flt in FILTERS_MONITOR:
@@ -350,7 +350,7 @@ class Det(Cw):
         return ops + ['close', 'free']
 
     def gen0(self, rng, tier):
-        n = 1 if tier == 'quick' else 6
+        n = 1 if tier == 'quick' else 12
         for fmt in ALL_FORMATS:
             for r in range(n):
                 for flt in (['-'] if r or fmt not in ('ustar', 'newc', 'zip', 'raw') else DET_FILTERS):
@@ -360,7 +360,7 @@ class Det(Cw):
                     yield Case(f'det-{fmt}-{flt}-{r}', self.scenario(rng, fmt, flt, opts, bpb, bil),
                                {'fmt': fmt, 'filter': flt, 'bpb': bpb, 'bil': bil, 'kind': 'det'})
         # the modelled layer with a short-writing callback: partial last blocks, buffer reuse
-        for i in range(self.nbase if tier == 'quick' else self.nbase * 10):
+        for i in range(self.nbase if tier == 'quick' else self.nbase * 30):
             bpb, bil = rng.choice([3, 7, 512, 10240]), rng.choice(BILS + [3])
             ops = ['new', f'fmt {rng.choice(["raw", "ustar"])}', f'bpb {bpb}', f'bil {bil}', 'script ' + ' '.join(rand_script(rng, 'short', 10)), 'open',
                    plain_header('f', 1300)]
